@@ -48,3 +48,53 @@ def M(rule, path, old, new, note='', **kw):
 
 def B(path, old, new, note='', **kw):
     return Variant('B', '-', path, old, new, note, **kw)
+
+
+class SeedVariant:
+    """A seeded breaking change kept as a unified diff under /verif/seeded/<name>/patch.diff.
+    kind 'M' with rule '*': any new violation of the property counts as detection."""
+    reanchor = False
+
+    def __init__(self, name, diff_text, rule='*'):
+        self.kind = 'M'
+        self.rule = rule
+        self.note = name
+        self.diff = diff_text
+
+    @property
+    def name(self):
+        return 'M:seed:%s' % self.note
+
+    def apply(self, model):
+        from .patch import PatchError, overlay_for
+        try:
+            ov = overlay_for(model, self.diff)
+        except (PatchError, Exception) as e:      # the tree moved on: the seed cannot be replayed
+            return None, 'seed patch does not apply: %s' % e
+        for path, text in ov.items():
+            try:
+                ast.parse(text)
+            except SyntaxError as e:
+                return None, 'seeded variant does not parse: %s' % e
+        return model.with_overlay(ov), None
+
+
+def load_seeds(prop, verif_dir):
+    import json
+    import os
+    out = []
+    base = os.path.join(verif_dir, 'seeded')
+    if not os.path.isdir(base):
+        return out
+    for d in sorted(os.listdir(base)):
+        mp = os.path.join(base, d, 'meta.json')
+        pp = os.path.join(base, d, 'patch.diff')
+        if not (os.path.isfile(mp) and os.path.isfile(pp)):
+            continue
+        with open(mp) as f:
+            meta = json.load(f)
+        if meta.get('property') != prop or meta.get('detected_by_check') is not True:
+            continue
+        with open(pp) as f:
+            out.append(SeedVariant(d, f.read()))
+    return out
